@@ -2,7 +2,7 @@
    followed by Print Assumptions.  Statements are about [run (init c p) ops] for EVERY
    capacity c > 0, policy p and history ops (unbounded), i.e. about the very functions the
    correspondence check evaluates against qmi.core.pubsub.QMI_SignalReceiver. *)
-Require Import QV.C09.Model QV.C09.Proofs.
+Require Import QV.C09.Model QV.C09.Proofs QV.C09.Blocking QV.C09.ProofsBlocking.
 From Coq Require Import Sorted.
 
 (* never more than the configured maximum *)
@@ -93,4 +93,73 @@ Proof. vm_compute. reflexivity. Qed.
 Example C09_example_gap :
   seqs (returned (snd (run (init 2 DiscardOld)
      [Arrive 10; Arrive 11; Arrive 12; Get; Arrive 13; Arrive 14; Get; Len]))) = [] ++ 1%N :: 3%N :: [].
+Proof. vm_compute. reflexivity. Qed.
+
+(* ---- the blocking form get_next_signal(timeout) with ANY number of reader threads (Blocking.v):
+   statements about every run [brun (binit c p) ls] of the transition system whose labels are the
+   atomic regions under the receiver's condition variable; the real multi-reader schedules recorded
+   under the deterministic scheduler must be such runs (Corr.check_trace). ---- *)
+
+(* every interleaving refines a history of the sequential model *)
+Theorem C09_blocking_refines : forall c p ls s',
+  brun (binit c p) ls = Some s' -> Refines c p ls s'.
+Proof. exact brun_refines. Qed.
+Print Assumptions C09_blocking_refines.
+
+(* over all readers, in the order of the hand-overs, the numbers strictly increase: no signal is
+   given to two readers and an older one never after a newer one *)
+Theorem C09_blocking_deliveries_increase : forall c p ls s',
+  0 < c -> brun (binit c p) ls = Some s' -> StronglySorted N.lt (seqs (map snd (dlv s'))).
+Proof. exact blocking_deliveries_increase. Qed.
+Print Assumptions C09_blocking_deliveries_increase.
+
+Theorem C09_blocking_payload : forall c p ls s',
+  0 < c -> brun (binit c p) ls = Some s' ->
+  Forall (fun e => nth_error (barrivals ls) (N.to_nat (snd e)) = Some (fst e)) (map snd (dlv s')).
+Proof. exact blocking_payload. Qed.
+Print Assumptions C09_blocking_payload.
+
+Theorem C09_blocking_bounded_counts : forall c p ls s',
+  0 < c -> brun (binit c p) ls = Some s' ->
+  length (q (base s')) <= c /\ next (base s') = N.of_nat (length (barrivals ls)).
+Proof. intros c p ls s' Hc H. split; [eapply blocking_bounded|eapply blocking_counts]; eauto. Qed.
+Print Assumptions C09_blocking_bounded_counts.
+
+(* the timeout error is only possible with an empty queue *)
+Theorem C09_blocking_no_false_timeout : forall s r s',
+  bstep s (BExpire r) = Some s' -> rd s' r = RTimedOut -> q (base s) = [].
+Proof. exact expire_timeout_only_if_empty. Qed.
+Print Assumptions C09_blocking_no_false_timeout.
+
+(* with a signal queued, entering / waking / expiring gives the reader the oldest one, removes exactly
+   that one and leaves every other reader alone *)
+Theorem C09_blocking_takes_head : forall s r l s' pp n rest,
+  (l = BEnter r \/ l = BWake r \/ l = BExpire r) ->
+  q (base s) = (pp, n) :: rest -> bstep s l = Some s' ->
+  rd s' r = RGot pp n /\ q (base s') = rest /\ dlv s' = dlv s ++ [(r, (pp, n))] /\
+  (forall r', r' <> r -> rd s' r' = rd s r').
+Proof. exact reader_takes_head. Qed.
+Print Assumptions C09_blocking_takes_head.
+
+Theorem C09_blocking_waits_on_empty : forall s r l s',
+  (l = BEnter r \/ l = BWake r \/ l = BExpire r) ->
+  q (base s) = [] -> bstep s l = Some s' ->
+  base s' = base s /\ dlv s' = dlv s /\ rd s' r = match l with BExpire _ => RTimedOut | _ => RWaiting end.
+Proof. exact reader_waits_on_empty. Qed.
+Print Assumptions C09_blocking_waits_on_empty.
+
+(* a waiting reader can always be woken and, with a signal queued, the wake-up delivers (that the
+   wake-up HAPPENS after notify_all is C11's subject) *)
+Theorem C09_blocking_waiter_can_take : forall s r pp n rest,
+  rd s r = RWaiting -> q (base s) = (pp, n) :: rest ->
+  exists s', bstep s (BWake r) = Some s' /\ rd s' r = RGot pp n.
+Proof. exact waiting_reader_can_take. Qed.
+Print Assumptions C09_blocking_waiter_can_take.
+
+(* Non-vacuity: three readers, two wait, arrivals wake them in either order, the third times out. *)
+Example C09_blocking_example :
+  option_map (fun s => (dlv s, length (q (base s))))
+    (brun (binit 8 DiscardOld)
+       [BEnter 0; BEnter 1; BArrive 10; BArrive 11; BEnter 2; BWake 1; BWake 0; BArrive 12; BWake 0; BEnter 3; BExpire 3])
+  = Some ([(2, (10%Z, 0%N)); (1, (11%Z, 1%N)); (0, (12%Z, 2%N))], 0).
 Proof. vm_compute. reflexivity. Qed.
